@@ -22,7 +22,12 @@ var lookAlikes = []string{"123", "1.5", "1e3", "0x1f", "0o17", "true", "false", 
 	"2001-01-01", "2001-01-01T10:00:00Z", "12:30:45", "#c", "a #b", "- x", "---", "...", "+++", "[a]", "{a}", "a: b", "a:", ":a",
 	"&a", "*a", "!t", "|", ">", "'q'", "\"dq\"", "%d", "@h", "`b`", " lead", "trail ", "", "é", "日本", "a,b", "=", "1_000", ".5", "5.",
 	"+1", "-", "?", "? a", "null ", "NaN", ".inf", "Infinity", "0123", "1:2", "\\", "a\\nb", "multi word", "True", "NULL", "0.1", "-0",
-	"1e+300", "9223372036854775808", "[", "]", "{", "}", ",", "a\"b", "it's", "k=v", "[[t]]", "a.b", "x # y", "éè", "Ω", "ß"}
+	"1e+300", "9223372036854775808", "[", "]", "{", "}", ",", "a\"b", "it's", "k=v", "[[t]]", "a.b", "x # y", "éè", "Ω", "ß",
+	// values rather than shapes: characters some encoders escape, timestamps with offsets and
+	// fractions, keys that sort differently as text and as numbers (control characters are
+	// outside the character order of the trace specification and stay out)
+	"<", "&", "a<b>c", "</script>", "2022-02-05T10:30:00+02:00", "2001-12-14T21:59:43.10Z",
+	"2001-12-14 21:59:43.10 -5", "h10", "h2", "1.10", "1.0", "+1", "007", "%s"}
 
 func lookAlike(g *gen.G) string {
 	if g.P(0.85) {
